@@ -57,6 +57,10 @@ var knownWarriors = []string{
 	"jmp 0\n",
 	"spl 1\nmov -1, 0\nmov -1, 0\nmov 0, 1\n",
 	"mov 0, 1\nend 0\n",
+	"nop 0\njmp -1\n", // survive only through backward references (operands in the upper half of the core)
+	"nop 0\nnop 0\nnop 0\njmp -3\n",
+	"mov 0, <-5\nnop 0\njmp -2\n",
+	"add #1, -1\nnop 0\ndjn -1, #0\njmp -3\n",
 	"jmp 0\ndat 0, 010", // a number with leading zeros as the very last thing in the file
 	"spl 0\nmov 0, 1\ndat 008, 0009",
 	"add #0010, 1\njmp -1, 0001\n",
@@ -117,8 +121,8 @@ func genCLI(out *bufio.Writer, rng *rand.Rand, count int) int {
 		if rng.Intn(6) == 0 {
 			size = 3*ln + 1 // boundary of the precondition
 		}
-		if rng.Intn(5) == 0 {
-			size = []int{4001, 5000, 8192, 8000, 12000, 20000}[rng.Intn(6)] // well above and around the preset sizes
+		if rng.Intn(4) == 0 {
+			size = []int{4001, 5000, 8192, 8000, 12000, 20000, 8001, 9000, 16384, 55440}[rng.Intn(10)] // well above and around the preset sizes
 		}
 		procs := 1 + rng.Intn(12)
 		if rng.Intn(5) == 0 {
@@ -162,6 +166,17 @@ func genCLI(out *bufio.Writer, rng *rand.Rand, count int) int {
 		}
 		var files [][]byte
 		census := preset == "" && !legacy && rng.Intn(8) == 0
+		scripted := false
+		if n < 12 {
+			// a fixed opening: core sizes other than the presets' with warriors that live on
+			// backward references, against an idle opponent, at a fixed placement
+			scripted, census = true, false
+			legacy, preset, wantConst, debug = false, "", false, false
+			size = []int{5000, 8192, 9000, 12000, 55440, 4001}[n%6]
+			procs, cycles, ln, rounds, nfiles = 8, 300, 10, 1, 2
+			fixed = size / 2
+			files = append(files, []byte([]string{"nop 0\njmp -1\n", "nop 0\nnop 0\nnop 0\njmp -3\n"}[n/6]), []byte("jmp 0\n"))
+		}
 		if census {
 			// a warrior that counts its own tasks: 2^k tasks each add 1 to a counter, the one that
 			// sees the expected total survives — the outcome depends on every queued task
@@ -205,7 +220,7 @@ func genCLI(out *bufio.Writer, rng *rand.Rand, count int) int {
 			args := 0
 			_ = args
 		}
-		constCheck := !census && wantConst
+		constCheck := !census && !scripted && wantConst
 		if constCheck {
 			// a warrior that survives only if a predefined constant has the value the options
 			// describe: CORESIZE, MAXLENGTH, MAXPROCESSES, MINDISTANCE
@@ -239,9 +254,9 @@ func genCLI(out *bufio.Writer, rng *rand.Rand, count int) int {
 				constCheck = false
 			}
 		}
-		for i := 0; i < nfiles && !census && !constCheck; i++ {
+		for i := 0; i < nfiles && !census && !constCheck && !scripted; i++ {
 			var src []byte
-			if rng.Intn(3) == 0 && !legacy {
+			if (rng.Intn(3) == 0 || (size > 4000 && rng.Intn(2) == 0)) && !legacy {
 				src = []byte(knownWarriors[rng.Intn(len(knownWarriors))])
 			} else {
 				src = cliWarrior(rng, ln, legacy)
